@@ -341,7 +341,7 @@ theorem loadInner_refines (c : RCfg) (cs : List Inner) (hwf : ∀ x ∈ cs, x.WF
       | true => simp [liftSt]
       | false =>
         simp only [Bool.not_false, if_true, readText_leaf _ _ _ _ hi]
-        cases hp : parseUsize s with
+        cases hp : parseUsize (c.tok s) with
         | none => simp [liftSt]
         | some n =>
           simp only []
